@@ -57,6 +57,7 @@ def run_registry(acc, srv, key, n_pairs, tier):
     rw = RegWorld(srv, rng, n_families=rng.choice([2, 3, 4]))
     A = [a for a in rw.assets() if rw.valid(a)]
     tries = 0
+    big_at = rng.randrange(0, max(1, n_pairs)) if (n_pairs >= 2 and rng.random() < 0.3) else -1
     while len(rw.model) < n_pairs and tries < n_pairs * 6:
         tries += 1
         a0, a1 = rng.sample(A, 2)
@@ -64,10 +65,20 @@ def run_registry(acc, srv, key, n_pairs, tier):
             continue
         # requirement whitelists are stored as given (any strings): they must not matter for listing
         wl = rng.choice([[], [], ["owner"], ["lp1", "lp2"], ["LP1"], ["ab"], ["AURA1UH24G2LC8HVVKAAF7AWZ25LRH5FPTTHU2DHQ0N"], ["owner", "Xy"]])
+        if big_at == len(rw.model):
+            # one record far larger than all the others (a whitelist of 1600 well-formed addresses, > 64 KiB of JSON)
+            wl = ["aura1%038d" % i for i in range(1600)]
+            acc.count("pairs_with_huge_whitelist")
         resp, rec = rw.create(a0, a1, None, wl, (0, 0))
         if resp["r"] == "ok":
             rw.model[frozenset([a0, a1])] = rec
             rw.order.append(frozenset([a0, a1]))
+        if rng.random() < 0.06:
+            rw.admin_noise(rng, acc)
+    if rng.random() < 0.6:
+        # administrative actions between registration and listing (the factory's own migration among them)
+        for _ in range(rng.choice([1, 2, 3])):
+            rw.admin_noise(rng, acc, kind=rng.choice(["migrate_factory", "migrate_factory", "migrate_pair", "update_config_code"]))
     created = list(rw.model)
     limits = [None] + list(range(1, 41)) + [64, 255, 256, 257, 512, 1025, 65536, 1 << 31, (1 << 32) - 1]   # any page size
     for limit in limits:
@@ -151,6 +162,8 @@ def floors(acc, tier):
     _w.need(acc, msgs, "walks", 2000)
     _w.need(acc, msgs, "registries_over_10", 10)
     _w.need(acc, msgs, "registries_over_30", 4)
+    _w.need(acc, msgs, "pairs_with_huge_whitelist", 6)
+    _w.need(acc, msgs, "admin_noise_migrate_factory_ok", 20)
     return msgs
 
 
